@@ -788,6 +788,9 @@ def check_combine(ctx, fi):
     # adds outside the search: only an exact-key fast path (`if K in self: self[K] += other[K]`) is recognised
     searched = {id(n) for s_ in inner + nexts for n in ast.walk(s_)}
     for n in body_nodes:
+        if isinstance(n, ast.Assign) and len(n.targets) == 1 and isinstance(n.targets[0], ast.Subscript) and U(n.targets[0].value) == 'self':
+            ctx.ob('cv-combine', fi, n, False, 'combine ADDS the source factor to what the target already holds; `%s` overwrites it - whatever was there (the -inf '
+                   'masks of structural zeros, an earlier source for the same target) is lost' % U(n)[:70], construct='store in combine')
         if isinstance(n, ast.AugAssign) and id(n) not in searched:
             par = getattr(n, '_parent', None)
             if any(isinstance(x, ast.Assign) and x in nexts for x in body_nodes) and isinstance(par, ast.If) and \
